@@ -23,7 +23,10 @@ EXPLANATION = (
     'from evolve; R-C07.4 run_sql tags the failing (statement, params) on the '
     'exception and re-raises, and every EvolutionExecutionError raised around '
     'run_sql carries last_sql_statement taken from that exception; R-C07.5 '
-    'run_sql does not commit the open transaction on the transactional path.')
+    'run_sql does not commit the open transaction on the transactional path; '
+    'R-C07.6 no handler for a broad exception class (Exception, database '
+    'errors) in any function reachable from Evolver.evolve can continue '
+    'normally (no swallowed failure on the execution path).')
 NOT_DECIDED = (
     'Actual rollback behaviour of SQLite/Django for every failing statement '
     'index, and retry equivalence: these need execution (fault enumeration) '
@@ -507,7 +510,64 @@ def r5_one_transaction(ctx):
     ctx.counts['R-C07.5 committing calls in run_sql'] = sites
 
 
+BROAD = ('Exception', 'BaseException', 'DatabaseError', 'OperationalError',
+         'IntegrityError', 'ProgrammingError', 'Error')
+
+
+def r6_no_swallow_on_execution_path(ctx):
+    ctx.rule('R-C07.6')
+    p = ctx.program
+    ev = p.func(EVOLVER, 'Evolver.evolve')
+    reach = p.reachable_funcs([ev])
+    n = 0
+    for fq, f in sorted(reach.items()):
+        mod = f.module.name.split('django_evolution.', 1)[-1]
+        if mod in ('db.mysql', 'db.postgresql') or mod.startswith('compat.')\
+                and f.name != 'atomic':
+            continue
+        tries = [t for t in walk_no_nested(f.node) if isinstance(t, ast.Try)]
+        if not tries:
+            continue
+        g = None
+        for t in tries:
+            for h in t.handlers:
+                names = []
+                if h.type is None:
+                    names = ['BaseException']
+                else:
+                    for x in ast.walk(h.type):
+                        if isinstance(x, ast.Name):
+                            names.append(x.id)
+                        elif isinstance(x, ast.Attribute):
+                            names.append(x.attr)
+                if not any(nm in BROAD for nm in names):
+                    continue
+                n += 1
+                g = g or ctx.cfg(f)
+                hn = next((x for x in g.nodes if x.kind == 'except' and
+                           x.ast is h), None)
+                if hn is None:
+                    continue
+                r = g.reachable([hn])
+                # generator-based context managers: a handler that re-raises
+                # is fine; falling out of the handler is a swallow
+                if g.exit.id in r:
+                    ctx.finding(f, h, '%s catches %s on the execution path '
+                                'of an upgrade and can continue normally: a '
+                                'failing statement would not abort the '
+                                'upgrade, later SQL runs and the evolutions '
+                                'are recorded' % (f.qualname,
+                                                  '/'.join(names)),
+                                key='swallow:%s' % '/'.join(names),
+                                path=g.path(hn, g.exit))
+                else:
+                    ctx.ok(f, 'broad handler (%s) always re-raises or wraps' %
+                           '/'.join(names), h)
+    ctx.floor('broad exception handlers on the execution path', n, 7)
+
+
 def run(ctx):
+    r6_no_swallow_on_execution_path(ctx)
     r1_exception_forwarding(ctx)
     r2_atomic_bound(ctx)
     r3_state_after_tasks(ctx)
